@@ -214,6 +214,150 @@ def arm_has_shape_guard(arm):
     return False
 
 
+class _NoEval(Exception):
+    pass
+
+
+def _shape_eval(e, env, vals, depth=0):
+    """evaluate a shape expression over concrete operand shapes vals = {binder: (rows, cols)}"""
+    if depth > 30 or not is_node(e):
+        raise _NoEval(str(e)[:30])
+    t = e[0]
+    ev = lambda x: _shape_eval(x, env, vals, depth + 1)
+    if t == "path":
+        if e[1] in vals:
+            return ("M",) + vals[e[1]]
+        if e[1] in env:
+            return ev(env[e[1]])
+        raise _NoEval(e[1])
+    if t == "int":
+        return int(re.sub(r"[^0-9].*$", "", str(e[1])) or 0)
+    if t == "bool":
+        return bool(e[1])
+    if t == "mcall":
+        r = ev(e[1])
+        m = e[2]
+        if m in ("borrow", "clone", "as_ref", "deref", "borrow_mut", "to_owned"):
+            return r
+        if isinstance(r, tuple) and r and r[0] == "M":
+            if m == "shape":
+                return (r[1], r[2])
+            if m == "nrows":
+                return r[1]
+            if m == "ncols":
+                return r[2]
+            if m == "len":
+                return r[1] * r[2]
+        raise _NoEval(m)
+    if t == "field":
+        r = ev(e[1])
+        if isinstance(r, tuple) and r and r[0] != "M" and str(e[2]).isdigit() and int(e[2]) < len(r):
+            return r[int(e[2])]
+        raise _NoEval("field")
+    if t == "tuple":
+        return tuple(ev(x) for x in e[1])
+    if t in ("ref",):
+        return ev(e[2])
+    if t == "un":
+        if e[1] == "!":
+            return not ev(e[2])
+        if e[1] == "*":
+            return ev(e[2])
+        raise _NoEval("un")
+    if t == "paren":
+        return ev(e[1])
+    if t == "block" and e[1] and e[1][-1][0] == "expr" and not e[1][-1][2] and len(e[1]) == 1:
+        return ev(e[1][-1][1])
+    if t == "cast":
+        return ev(e[1])
+    if t == "bin":
+        op = e[1]
+        if op == "&&":
+            return bool(ev(e[2])) and bool(ev(e[3]))
+        if op == "||":
+            return bool(ev(e[2])) or bool(ev(e[3]))
+        a, b = ev(e[2]), ev(e[3])
+        try:
+            return {"!=": lambda: a != b, "==": lambda: a == b, "<": lambda: a < b, ">": lambda: a > b, "<=": lambda: a <= b, ">=": lambda: a >= b,
+                    "+": lambda: a + b, "*": lambda: a * b, "-": lambda: a - b}[op]()
+        except (KeyError, TypeError):
+            raise _NoEval(op)
+    raise _NoEval(t)
+
+
+def _yields_err(stmts):
+    for st in stmts or []:
+        for n in walk(st):
+            if n[0] == "ret" and n[1] is not None and "Err" in render(n[1])[:12]:
+                return True
+            if n[0] == "macro" and last_seg(n[1]) in ("panic", "assert", "unreachable"):
+                return True
+    if stmts and stmts[-1][0] == "expr" and not stmts[-1][2] and render(stmts[-1][1]).startswith("Err("):
+        return True
+    return False
+
+
+FORM_DOMAIN = {"RD": lambda r, c: r == 1, "VD": lambda r, c: c == 1, "MD": lambda r, c: True}
+
+
+def shape_guard_truth_table(arm, g1, g2):
+    """decide the arm's shape guard over all operand shapes in {1,2,3}^2 x {1,2,3}^2 admitted by the storage forms:
+    returns (verdict, detail): verdict in 'exact' | 'misses' | 'rejects-equal' | 'uninterpretable' | 'none'"""
+    body = arm.body
+    binders = [p[2] for p in arm.pats]
+    if len(binders) != 2 or not all(binders) or g1 not in FORM_DOMAIN or g2 not in FORM_DOMAIN:
+        return "uninterpretable", "binders/forms"
+    stmts = body[1] if is_node(body) and body[0] == "block" else []
+    env = {}
+    guards = []
+    for st in stmts:
+        if st[0] == "let" and st[2] is not None:
+            pat = st[1]
+            if pat[0] == "pident":
+                env[pat[1]] = st[2]
+            elif pat[0] == "ptuple":
+                for i, sub in enumerate(pat[1]):
+                    if sub[0] == "pident":
+                        env[sub[1]] = ["field", st[2], str(i)] if not (is_node(st[2]) and st[2][0] == "tuple") else st[2][1][i]
+        elif st[0] == "expr" and is_node(st[1]) and st[1][0] == "if":
+            n = st[1]
+            then_err = _yields_err(n[2])
+            else_err = n[3] is not None and _yields_err(n[3][1] if n[3][0] == "block" else [["expr", n[3], False]])
+            if then_err != else_err:
+                guards.append((n[1], then_err))
+    if not guards:
+        return "none", ""
+    dom = (1, 2, 3)
+    missed, rejected, n = [], [], 0
+    for lr in dom:
+        for lc in dom:
+            if not FORM_DOMAIN[g1](lr, lc):
+                continue
+            for rr in dom:
+                for rc in dom:
+                    if not FORM_DOMAIN[g2](rr, rc):
+                        continue
+                    vals = {binders[0]: (lr, lc), binders[1]: (rr, rc)}
+                    fires = False
+                    for cond, then_err in guards:
+                        try:
+                            v = bool(_shape_eval(cond, env, vals))
+                        except _NoEval as ex:
+                            return "uninterpretable", str(ex)
+                        if v == then_err:
+                            fires = True
+                    n += 1
+                    if (lr, lc) != (rr, rc) and not fires:
+                        missed.append("%dx%d vs %dx%d" % (lr, lc, rr, rc))
+                    if (lr, lc) == (rr, rc) and fires:
+                        rejected.append("%dx%d" % (lr, lc))
+    if missed:
+        return "misses", "%d of %d shape pairs, e.g. %s" % (len(missed), n, ", ".join(missed[:4]))
+    if rejected:
+        return "rejects-equal", ", ".join(rejected[:4])
+    return "exact", "%d shape pairs" % n
+
+
 def run(F, rep, tier):
     rep.rule("C01-R1", "closure: scalar x scalar arm for kind K => arms FxF, FxS, SxF for every enabled matrix form F (and the matrix x row/column-vector broadcast arms stay present where they exist today)")
     rep.rule("C01-R2", "arm pattern forms = struct operand field types; out form = broadcast form")
@@ -258,6 +402,7 @@ def run(F, rep, tier):
     rep.floor("C01-R1", "binary operator families with a dispatch table", len({f[3] for f in families}), 15)
 
     n_kernels = 0
+    n_tt = [0]
     unrec = []
     for var, op, nfc, dkey in families:
         arms = disp[dkey]
@@ -335,11 +480,21 @@ def run(F, rep, tier):
                         if ("C01-R4", k4) not in rep.instances and not any(v["key"] == "C01-R4|" + k4 for v in rep.violations):
                             guard = arm_has_shape_guard(a)
                             asserting = shape_asserting(kk)
+                            tt, ttd = shape_guard_truth_table(a, g1, g2)
+                            if tt in ("misses", "rejects-equal") and not (asserting and tt == "misses"):
+                                rep.bad("C01-R4", k4 + ":guard-" + tt,
+                                        "%s: the dispatch arm's shape guard %s (%s): %s" % (
+                                            sname, "lets operands of different shape through to a kernel that does not assert equal shapes" if tt == "misses" else "rejects operands of EQUAL shape",
+                                            ttd, "operands of incompatible shape yield a value instead of an error" if tt == "misses" else "valid operands are refused"), "%s (%s)" % (sname, fs.crate))
+                                continue
+                            if tt == "exact":
+                                n_tt[0] += 1
                             rep.check(guard or asserting, "C01-R4", k4,
                                       "%s: operands of form %s and %s both carry a runtime shape, but the dispatch arm compares no shapes and the kernel (%s) does not assert equal shapes: operands of different size yield a value instead of an error" % (
                                           sname, g1, g2, "; ".join(repr(e) for e in kk.effects)[:160]), "%s (%s)" % (sname, fs.crate),
-                                      sample={"struct": sname, "guard_in_arm": guard, "shape_asserting_kernel": asserting})
+                                      sample={"struct": sname, "guard_in_arm": guard, "guard_truth_table": [tt, ttd], "shape_asserting_kernel": asserting})
     rep.floor("C01-R3", "binary kernels normalised and compared with the oracle", n_kernels, 150)
+    rep.floor("C01-R4", "shape guards decided exactly over the finite shape table", n_tt[0], 40)
     if unrec:
         rep.bad("C01-R3", "unrecognised-kernels:%s" % ",".join(sorted(unrec)), "kernels the normal-form evaluator cannot read (extend the idiom table): %s" % unrec)
 
